@@ -1819,6 +1819,15 @@ func scenarios(tier string) []scenario {
 	for _, p := range pairs {
 		for _, size := range sizes {
 			for _, ds := range []string{"absent", "present"} {
+				// the modes a creation asks for by default (0666 for a file, 0777): code that
+				// skips "setting what is already there" compares with the mode it asked for, not
+				// with the mode it got (umask) or found (existing destination). Fault-free only.
+				for _, mode := range []uint32{0o666, 0o777} {
+					out = append(out,
+						scenario{Func: "CopyFile", Hasher: "none", DstFS: p.dst, SrcFS: p.src, Shared: p.shared, Size: size, DstState: ds, SrcMode: mode, noFaults: true},
+						scenario{Func: "CopyFileHash", Hasher: "sha512", DstFS: p.dst, SrcFS: p.src, Shared: p.shared, Size: size, DstState: ds, SrcMode: mode, noFaults: true})
+				}
+
 				for _, mode := range []uint32{0o644, 0o400} {
 					out = append(out,
 						scenario{Func: "CopyFile", Hasher: "none", DstFS: p.dst, SrcFS: p.src, Shared: p.shared, Size: size, DstState: ds, SrcMode: mode},
